@@ -30,6 +30,7 @@ struct CNode {
 }
 
 struct Link {
+    id: u64,
     from: String,
     to: String,
     handshake: Vec<String>,
@@ -101,6 +102,7 @@ impl Cluster {
                     *m = Some(ClusterMember { name: l.from.clone(), role: ClusterRole::Secoundary, sender: None });
                 }
                 self.links.push(Link {
+                    id: l.id,
                     from: l.from,
                     to: l.to,
                     handshake: hs,
@@ -157,6 +159,9 @@ impl Cluster {
             }
         }
         self.crossings += 1;
+        if std::env::var("VERIF_TRACE").is_ok() {
+            eprintln!("TRACE {}>{} {} => {}", self.links[li].from, self.links[li].to, line, res);
+        }
         Some(format!("{} => {}", esc(line.as_bytes()), res))
     }
 
@@ -172,6 +177,9 @@ impl Cluster {
         let l = &mut self.links[li];
         if line != "ok" {
             self.crossings += 1;
+            if std::env::var("VERIF_TRACE").is_ok() {
+                eprintln!("TRACE reply {}>{} {}", l.to, l.from, line);
+            }
             let _ = std::panic::catch_unwind(std::panic::AssertUnwindSafe(|| process_request(&line, &dbs, &mut l.reader)));
         }
         Some(esc(line.as_bytes()))
@@ -244,7 +252,7 @@ impl Cluster {
             l.server.0.left(&dbs);
         }));
         l.open = false;
-        nundb::verif_hooks::close_link(&l.from, &l.to);
+        nundb::verif_hooks::close_link(l.id);
         std::thread::sleep(std::time::Duration::from_millis(5));
     }
 
@@ -384,12 +392,12 @@ pub fn run(path: &str, workdir: &str) {
                     "Polled".to_string()
                 }
                 "deliver" => match cl.link_pos(&op[1], &op[2]) {
-                    Some(li) => cl.deliver(li).unwrap_or("Nothing".to_string()),
+                    Some(li) => cl.deliver(li).map(|_| "Delivered".to_string()).unwrap_or("Nothing".to_string()),
                     None => "NoLink".to_string(),
                 },
                 "reply" => match cl.link_pos(&op[2], &op[1]) {
                     // reply <to> <from>: a line travelling back on link from->to
-                    Some(li) => cl.reply(li).unwrap_or("Nothing".to_string()),
+                    Some(li) => cl.reply(li).map(|_| "Replied".to_string()).unwrap_or("Nothing".to_string()),
                     None => "NoLink".to_string(),
                 },
                 "close" => match cl.link_pos(&op[1], &op[2]) {
@@ -431,12 +439,16 @@ pub fn run(path: &str, workdir: &str) {
             }
             let inb = if parts.is_empty() { "-".to_string() } else { parts.join(";") };
             out.line(&format!("{} | {} | x={}", res, inb, cl.crossings - before));
-            out.line(&format!("D{}", cl.dump()));
+            let d = match std::panic::catch_unwind(std::panic::AssertUnwindSafe(|| cl.dump())) {
+                Ok(s) => s,
+                Err(_) => " POISONED".to_string(),
+            };
+            out.line(&format!("D{}", d));
         }
         // release the parked link threads
         for li in 0..cl.links.len() {
             if cl.links[li].open {
-                nundb::verif_hooks::close_link(&cl.links[li].from.clone(), &cl.links[li].to.clone());
+                nundb::verif_hooks::close_link(cl.links[li].id);
             }
         }
         out.line("E");
